@@ -6,4 +6,5 @@ PROPS = {
     "C14": dict(pkg="c14", run="^TestC14$", shards=4, timeout_quick=300, timeout_thorough=1500, net=114),
     "C19": dict(pkg="c19", run="^TestC19$", shards=8, timeout_quick=300, timeout_thorough=1500, net=119),
     "C16": dict(pkg="c16", run="^TestC16$", shards=8, timeout_quick=300, timeout_thorough=1500, net=116),
+    "C01": dict(pkg="c01", run="^TestC01$", shards=8, timeout_quick=600, timeout_thorough=2400, net=101),
 }
